@@ -18,6 +18,9 @@ from . import ops
 
 ABS_EXC = ClassInfo("SomeException", bases=[BUILTIN_CLASSES["Exception"]], builtin=True)
 ABS_GEN_EXIT = ClassInfo("SomeGeneratorExitSubclass", bases=[BUILTIN_CLASSES["GeneratorExit"]], builtin=True)
+# a BaseException that is neither an Exception nor a GeneratorExit (KeyboardInterrupt, SystemExit, asyncio.CancelledError - the RunEngine
+# does throw the latter into plans); opt-in per bisimulation through throw_classes
+ABS_BASE_EXC = ClassInfo("SomeNonExceptionBaseException", bases=[BUILTIN_CLASSES["BaseException"]], builtin=True)
 
 
 class LoopHead:
